@@ -22,7 +22,7 @@ def run(ctx):
         ctx, "proof",
         "PARTIAL (that every history and crash leads to a well-formed disk is decided on sampled runs). Lean theorem fsck_sound: the executable structure checker accepts an image only "
         "if the declarative statement WF holds of it — pointers in the data region, no block with two owners, block bitmap = metadata + owned blocks, inode bitmap = inodes in use, "
-        "sizes agree with the blocks present, names unique and well-formed, every live object exactly one name, '.' and '..' right, every live object reachable from the root. For the clause 'names are unique' additionally a theorem for ALL histories on the reference model M6 (names_unique_in_every_reachable_state: an inductive invariant of every operation incl. RENAME over targets), and for the clauses 'every name denotes a live object', 'no object has two names', 'every directory has its dot entries, nothing else has entries' the theorem namespace_wellformed_in_every_reachable_state (invariant WFN of every operation; its RENAME case exposed the defect fixed in 7e58aef) and, for 'every live object has exactly one name', every_live_object_has_a_name with no_object_has_two_names and root_is_permanent (invariant WFO). "
+        "sizes agree with the blocks present, names unique and well-formed, every live object exactly one name, '.' and '..' right, every live object reachable from the root. For the clause 'names are unique' additionally a theorem for ALL histories on the reference model M6 (names_unique_in_every_reachable_state: an inductive invariant of every operation incl. RENAME over targets), and for the clauses 'every name denotes a live object', 'no object has two names', 'every directory has its dot entries, nothing else has entries' the theorem namespace_wellformed_in_every_reachable_state (invariant WFN of every operation; its RENAME case exposed the defect fixed in 7e58aef) and, for 'every live object has exactly one name', every_live_object_has_a_name with no_object_has_two_names and root_is_permanent (invariant WFO); for the clauses '.', '..' and 'reachable from the root' tree_clauses_partial (invariant WFT under the decidable hypothesis that no RENAME moves a directory to another directory) and tree_clauses_fail_after_a_directory_move (the full statement is false of model and code: the known finding). "
         "Tie: the checker runs on the logical disk of the REAL server (every block read through the journal, decoded with the repository's own inode and directory-entry decoders): at "
         "quiescent points of sequential histories and scenarios, at the end of concurrent histories, on every sampled crash image after recovery (including crashes while a large "
         "file is being freed in the background) and again after the recovered server has served requests",
